@@ -51,10 +51,13 @@ check("C12",
       "x[a:b][c:d] and x[a::2][b:c], concrete integer lists (take/Shuffle), x.vindex with two index arrays on 3-d/4-d inputs "
       "(entries enumerated by solver-driven forking, other axes' sizes symbolic) -- equals NumPy's meaning at a skolem "
       "position; the .vindex bounds guard on symbolic ints; unsupported forms (dask int array next to a list/ndarray, two "
-      "lists) raise NotImplementedError.",
+      "lists) raise NotImplementedError.  .blocks[...] on catalogue programs (blocks of the layout advertised when .blocks is "
+      "taken).  Integer dask-array indices: the two block kernels run on arrays of unbounded symbolic index entries (1-3 "
+      "entries, 2-3 blocks of symbolic size): in-range entries select NumPy's element, others raise IndexError; combined with "
+      "other indices the optimizer gets through and the advertised shape is NumPy's.",
       "Trusted: z3, symx shims (witness-replayed each run), the slice/view reference model, symx.sarr's NumPy indexing "
-      "(validated against NumPy). Outside (not decided): boolean masks, values selected through dask-array indices, .blocks, "
-      "unknown chunk sizes -- their planners are NumPy code on data-dependent indices.",
+      "(validated against NumPy), symx.iarr. Outside (not decided): boolean masks, unknown chunk sizes, dask index arrays of "
+      "several chunks end to end.",
       "DESIGN.md 6 C12")
 
 check("C14",
